@@ -284,14 +284,17 @@ impl Space for TraitRep {
     }
     fn gen(&self, ctx: &mut Ctx) -> Option<Case> {
         let n = 2 + ctx.choose(self.max_instr - 1);
-        let names = ["from_owned", "owned_into"];
-        let mut slot: [Option<(Vec<String>, Params)>; 2] = [None, None];
+        // a template is repeated onto later instructions of the SAME name only: `map_owned` / `from` overlap the two basic
+        // names in the kinds they produce but are different instructions (seed C19-04 made a follower inherit from a
+        // "wider" template)
+        let names = ["from_owned", "owned_into", "map_owned", "from"];
+        let mut slot: [Option<(Vec<String>, Params)>; 4] = [None, None, None, None];
         let mut with: Vec<Instr> = vec![];
         let mut without: Vec<Instr> = vec![];
         let mut tags = vec![format!("host={}", if self.enum_host { "enum" } else { "struct" })];
         let mut nontrivial = false;
         for k in 0..n {
-            let ni = ctx.choose(2);
+            let ni = ctx.choose(4);
             let name = names[ni];
             // own parameters: subset of vars + at most one terminal
             let mut own = Params::default();
